@@ -14,21 +14,28 @@ Primitive writes and how they are intercepted
   TC            open(path + '.meta.tmp', 'wb')      } module global `pysyncobj.journal.open` (shadowing
   TW<v>         f.write(dumps(meta)); f.flush()     } the builtin; all other paths/modes go to the builtin)
   TM            shutil.move(tmp, meta)              -> module global `pysyncobj.journal.shutil` (proxy)
-All three globals are restored after every single call (`patched`, try/finally).
+  JR JC JW JZ JS JM  the same kinds of writes on `<journal>.tmp`, the new file of a head drop
+                (os.remove of a stale one, open 'wb', header write, resize, slice store, rename onto the
+                journal): module global `pysyncobj.journal.os` (proxy: `remove`), the `open` wrapper, the
+                mmap shim (it asks /proc/self/fd/<n> which file a new mapping belongs to) and the
+                `shutil` proxy (a move of `*.meta.tmp` is TM, of `<journal>.tmp` is JM)
+`mmap.flush()` (msync) is NOT forwarded to the real mapping (irrelevant for a killed process, no primitive
+of the model, slow on a busy disk).  All four globals are restored after every single call (`patched`,
+try/finally).
 
 Kill plan `(k, t)` of a recorder: when primitive number k (0-based, counted per operation) is about to
 happen, only its first t bytes are performed if it is tearable (a slice store that is not one aligned
-word of <= 4 bytes; the tmp write), nothing for the atomic ones (resize, header word, TC, TM), and
-`Killed` (a BaseException) is raised.  The Python objects are then abandoned WITHOUT `_destroy()` /
+word of <= 4 bytes; the content writes TW / JW), nothing for the atomic ones (resize, header word,
+create, remove, rename), and `Killed` (a BaseException) is raised.  The Python objects are then abandoned WITHOUT `_destroy()` /
 flush (the pages of a shared mapping are the file's pages: exactly what kill -9 leaves); the handles
 are closed only after the files were copied (closing a mapping does not change the file).
 
 Private attributes touched
-  read only : `_FileJournal__journalFile`, `_FileJournal__currentOffset`, `_FileJournal__meta`,
-              `_FileJournal__metaSaved`,
-              `_ResizableFile__mm` (it IS our proxy, put there by the code itself through the shim; not read),
-              `_ResizableFile__f` (to close the descriptor when abandoning)
-  written   : none on the objects; module globals `pysyncobj.journal.mmap`, `.open`, `.shutil`
+  read only : `_FileJournal__currentOffset`, `_FileJournal__meta`, `_FileJournal__metaSaved`
+              (`_ResizableFile__mm` IS our proxy, put there by the code itself through the shim; it and
+              `_ResizableFile__f` / `_FileJournal__journalFile` / `_FileJournal__journalFileName` are not
+              accessed: mappings and descriptors are tracked by the shim and the `open` wrapper)
+  written   : none on the objects; module globals `pysyncobj.journal.mmap`, `.open`, `.shutil`, `.os`
               (restored after every call)
 """
 import builtins
@@ -103,6 +110,7 @@ class Recorder(object):
         self.dead = False
         self.maps = []          # real mmap objects created through the shim
         self.files = []         # real file objects opened 'r+b' by ResizableFile
+        self.flushes = 0        # mmap.flush() calls seen (not forwarded, see MmapProxy.flush)
 
     def begin(self, kill=None):
         self.log = []
@@ -185,7 +193,11 @@ class MmapProxy(object):
             raise AssertionError("journal harness: unexpected mmap store %r" % (key,))
 
     def flush(self, *a):
-        return self._mm.flush(*a)
+        # msync is not forwarded: it only matters for power loss, not for a killed process (the pages of
+        # a shared mapping are the file's page-cache pages, which is also what the harness reads), it is
+        # not a primitive of the model, and on a busy disk it dominates the run time
+        self._rec.flushes += 1
+        return None
 
     def close(self):
         return self._mm.close()
